@@ -7,7 +7,8 @@
 (*   degen      triangles with two identical vertices / zero-length segments   *)
 (*   circle     2D circles: max |f(endpoint)| 8(R-h)/h^2 * 1e6                 *)
 (*   perimerr   2D: |length - perimeter| / perimeter * 1e6, seq = resolution   *)
-(*              index (cells double from one to the next)                      *)
+(*              index (cells double from one to the next); judged against the  *)
+(*              envelope 2/cells and 1 % at the finest resolution              *)
 EXTENDS Integers, Sequences, TLC, Json
 Trace == ndJsonDeserialize("trace.ndjson")
 VARIABLES l, prev
@@ -18,10 +19,12 @@ Judge(e) ==
      /\ say(e.unmatched = 0, "open-or-misoriented-edge")
      /\ say(e.degen = 0, "degenerate-item")
      /\ say(e.outside = 0, "vertex-outside-sampled-box")
-     /\ say(e.volpos, "volume-not-positive")
+     /\ say(e.nt = 0 \/ e.volpos, "volume-not-positive")
      /\ (e.circle > 0 => say(e.circle <= 1001000, "circle-endpoint-error-too-large"))
-     /\ ((e.hasperim /\ e.seq > 1 /\ prev[1] = e.shape /\ prev[2] = e.r /\ prev[3] = e.seq - 1)
-           => say(e.perimerr <= prev[4] + 50, "length-does-not-converge"))
+     \* convergence: a polygonal contour loses at most ~0.83 h per right-angled corner, so the relative error is
+     \* bounded by C / cells (C = 2 covers every rotated box; circles are O(h^2)); it need not be monotone -
+     \* the loss depends on how the corners happen to sit in their cells
+     /\ (e.hasperim => say(e.perimerr <= 2000000 \div e.cells, "length-does-not-converge"))
      /\ ((e.hasperim /\ e.seq = 4) => say(e.perimerr <= 10000, "length-far-from-perimeter"))
 Next == /\ l <= Len(Trace) /\ l' = l + 1 /\ (IF Judge(Trace[l]) THEN TRUE ELSE TRUE)
         /\ prev' = IF Trace[l].hasperim THEN <<Trace[l].shape, Trace[l].r, Trace[l].seq, Trace[l].perimerr>> ELSE <<"", "", 0, 0>>
